@@ -340,9 +340,12 @@ def run(ctx):
     ctx.bounds = {"alphabet": len(alpha), "max_len": L if ctx.quick else 4, "sequences": len(seqs)}
     items = [(ops, False) for ops in seqs]
     # validate the snapshot emulation against real process deaths on the short sequences
-    real = [ops for ops in seqs if len(ops) <= (2 if ctx.quick else 3)]
+    real = [ops for ops in seqs if len(ops) <= 2]
     if ctx.quick:
         real = real[:: max(1, len(real) // 60)]
+    else:
+        three = [ops for ops in seqs if len(ops) == 3]
+        real += three[:: max(1, len(three) // 400)]
     items += [(ops, True) for ops in real]
     ctx.bounds["real_crash_sequences"] = len(real)
     res = ctx.pmap(_work, items, chunk=8)
